@@ -185,9 +185,39 @@ def dataset(cases):
                             f.write_example(values={"a": np.frombuffer(content(c["width"], i + 200 + 50 * k), np.uint8)}, split="train")
                     updates += df.get_updated_infos()
                 ds.write_config(updated_infos=updates)
+            if c.get("threaded_fillers"):
+                # one filler per thread, each into its own sub-directory, closing shards at the same time; merged by one write_config
+                import threading as _th
+                from sedpack.io.dataset_filler import DatasetFiller
+                fillers = [DatasetFiller(ds, relative_path_from_split=Path(f"t{k}"), auto_update_dataset=False) for k in range(c["threaded_fillers"])]
+                errs = []
+
+                def work(k, df):
+                    try:
+                        with df as f:
+                            for i in range(c["n"] * 3):
+                                f.write_example(values={"a": np.frombuffer(content(c["width"], i + 1000 * (k + 1)), np.uint8)}, split="train")
+                    except BaseException as ex:  # noqa: BLE001
+                        errs.append(f"{type(ex).__name__}: {ex}"[:200])
+                ths = [_th.Thread(target=work, args=(k, df)) for k, df in enumerate(fillers)]
+                for t_ in ths:
+                    t_.start()
+                for t_ in ths:
+                    t_.join()
+                if errs:
+                    raise RuntimeError("; ".join(errs))
+                updates = []
+                for df in fillers:
+                    updates += df.get_updated_infos()
+                ds.write_config(updated_infos=updates)
             bad, nfiles, sizes = [], 0, []
             root = tmp / "d"
             ds2 = Dataset(root)
+            try:
+                ds2.check(show_progressbar=False)
+                check_outcome = "passed"
+            except BaseException as ex:  # noqa: BLE001
+                check_outcome = "error:" + type(ex).__name__
 
             def walk(info):
                 nonlocal nfiles
@@ -212,7 +242,7 @@ def dataset(cases):
             rootsum = tuple(ds2.current_metadata_checksums())
             if rootsum != tuple(ref_digest(a, (root / "dataset_info.json").read_bytes()) for a in algs):
                 bad.append(["dataset_info"])
-            out.append({"bad": bad, "files": nfiles, "max_size": max(sizes) if sizes else 0})
+            out.append({"bad": bad, "files": nfiles, "max_size": max(sizes) if sizes else 0, "check": check_outcome})
         except Exception as ex:  # noqa: BLE001
             out.append({"bad": [["error", f"{type(ex).__name__}: {ex}"[:300]]], "files": 0, "max_size": 0})
         finally:
